@@ -6,6 +6,9 @@ is.  Import-free.
                       (one committed version, in `seq` order) keep, per primary key of the handle's
                       table, the FIRST causal length seen; result in first-occurrence order
                       (`IndexMap`).
+* `rereadBatch`     — `match_changes_from_db_version` after a chunked version was applied from the buffer:
+                      nothing when no row was impacted, else the same filter over the re-read live
+                      winners of that version.
 * `step (.batch b)` — one `changes_rx.recv()` arm of `batch_candidates`: every candidate is tested
                       against `cl_cache` (`*o.get() > cl` → skipped; otherwise cache and buffer are
                       overwritten IN PLACE, a new key is appended; `buf_count += 1` per accepted
@@ -67,6 +70,20 @@ def filterOne (acc : List Cand) (c : Change) : List Cand :=
 
 /-- the candidate batch `match_changes` sends to the handle for one change list -/
 def filterChanges (cs : List Change) : List Cand := cs.foldl filterOne []
+
+/-- The SECOND producer: `process_fully_buffered_changes` → `match_changes_from_db_version`.  A remote
+version that arrived in chunks is applied from `__corro_buffered_changes`; `impacted` is
+`crsql_rows_impacted() > 0` of that transaction; only then the version's entries are RE-READ from
+`crsql_changes` (`WHERE db_version = ? AND site_id = ? ORDER BY seq`: the changes of that version that
+won the merge and are still live, `live`) and run through the same per-key filter.  `none` = no
+candidate batch is sent at all. -/
+def rereadBatch (impacted : Bool) (live : List Change) : Option (List Cand) :=
+  if impacted then some (filterChanges live) else none
+
+/-- within one version every change of a row of the table carries the same causal length
+(what cr-sqlite produces: the causal length is a property of the row) -/
+def UniformCl (cs : List Change) : Prop :=
+  ∀ c1 ∈ cs, ∀ c2 ∈ cs, c1.mine = true → c2.mine = true → c1.key = c2.key → c1.cl = c2.cl
 
 structure St where
   cache    : List Cand := []     -- cl_cache, insertion order
